@@ -397,6 +397,15 @@ impl GenericsAnalyzer {
             }
         }
 
+        {
+            // the bounds of the deps parameter may mention it as well (`D: PartialEq<D>`)
+            use syn::visit_mut::VisitMut;
+            let mut to_self = crate::signature::DepsParamToSelf(generic_param_ident, false);
+            for bound in deps_trait_bounds.iter_mut() {
+                to_self.visit_type_param_bound_mut(bound);
+            }
+        }
+
         Some(FnDeps::Generic {
             generic_param: Some(generic_param_ident.clone()),
             trait_bounds: deps_trait_bounds,
